@@ -41,6 +41,84 @@ def outcome(f):
 
 OTHER = ['color', 'default-x', 'number', 'type', 'id', 'placement', 'font-family', 'no-such-attribute', 'print-object', 'bezier-x', 'NAME', 'x']
 out = []
+
+
+def cross_offers():
+    """The same attribute name is declared with DIFFERENT enumerated types on different elements (system on measure-numbering and on direction,
+    type on dozens).  In a fresh forked child per ordered pair of such types: one element takes every value of its own type, then an element
+    whose type for that name differs is offered the values only the first type allows.  Verdicts are judged by the schema (xv) in c04.py."""
+    import os, pickle
+    XS = '{http://www.w3.org/2001/XMLSchema}'
+    import musicxml
+    root = ET.parse(os.path.join(os.path.dirname(musicxml.__file__), 'generate_classes', 'musicxml_4_0.xsd')).getroot()
+    enum = {}
+    for st in root.findall(XS + 'simpleType'):
+        r = st.find(XS + 'restriction')
+        vals = [x.get('value') for x in r.findall(XS + 'enumeration')] if r is not None else []
+        if vals:
+            enum[st.get('name')] = vals
+    by = {}
+    for n in XE.__all__:
+        c = getattr(XE, n)
+        if not (isinstance(c, type) and issubclass(c, XE.XMLElement)) or c is XE.XMLElement:
+            continue
+        try:
+            if not c.TYPE.get_xsd_tree().is_complex_type:
+                continue
+            for a in c.TYPE.get_xsd_attributes():
+                t = a.xsd_tree.get_attributes().get('type') if a.name else None
+                if t in enum and a.name != 'name':
+                    by.setdefault(a.name, {}).setdefault(t, n)
+        except Exception:
+            continue
+    pairs = [(an, tx, cx, ty, cy) for an, d in sorted(by.items()) for tx, cx in sorted(d.items()) for ty, cy in sorted(d.items())
+             if tx != ty and set(enum[tx]) - set(enum[ty])]
+    rng.shuffle(pairs)
+    pairs = [x for x in pairs if x[0] != 'type'] + [x for x in pairs if x[0] == 'type'][:60]       # `type` alone makes 330 of the ~350 pairs
+    res = []
+
+    def parse_one(cn, an, text):
+        c = getattr(XE, cn)
+        node = ET.Element(c.XSD_TREE.name, {an: text})
+        try:
+            R.make(c.XSD_TREE.name)
+            v0 = R._cache.get(c.XSD_TREE.name)
+        except Exception:
+            v0 = None
+        if v0 is not None:
+            node.text = str(v0)
+        holder = {}
+        def p():
+            holder['e'] = _et_xml_to_music_xml(node)
+        o = outcome(p)
+        return o, (str(holder['e'].attributes.get(an)) if 'e' in holder else None)
+    for an, tx, cx, ty, cy in pairs:
+        r, w = os.pipe()
+        pid = os.fork()
+        if pid == 0:
+            os.close(r)
+            got = []
+            try:
+                for v in enum[tx]:
+                    parse_one(cx, an, v)
+                for v in sorted(set(enum[tx]) - set(enum[ty]))[:4] + enum[ty][:2]:
+                    o, stored = parse_one(cy, an, v)
+                    got.append(['%s (on %s after %s took the values of %s)' % (an, cy, cx, tx), ty, v, o, stored])
+            except BaseException as ex:
+                got.append(['%s (on %s after %s)' % (an, cy, cx), ty, '', 'EXC:' + type(ex).__name__, None])
+            with os.fdopen(w, 'wb') as fw:
+                pickle.dump(got, fw)
+            os._exit(0)
+        os.close(w)
+        with os.fdopen(r, 'rb') as fr:
+            data = fr.read()
+        os.waitpid(pid, 0)
+        res += pickle.loads(data) if data else []
+    return res
+
+
+# before anything else has used any table: what one element's use of a type leaves behind for another element's different type
+out.append({'cls': '<cross offers>', 'complex': False, 'simple_attr': 'XSDWrongAttribute', 'parser_texts': cross_offers()})
 # first touch every class's lazily built table, so that what is exercised below is the behaviour after ordinary use of the others
 for n in XE.__all__:
     c = getattr(XE, n)
